@@ -15,21 +15,30 @@ import sys
 from sim import seeds, wire
 
 ERRNO = {'EACCES': errno.EACCES, 'ENOENT': errno.ENOENT, 'EIO': errno.EIO, 'EMFILE': errno.EMFILE,
-         'EROFS': errno.EROFS, 'ENOSPC': errno.ENOSPC, 'EPIPE': errno.EPIPE}
+         'EROFS': errno.EROFS, 'ENOSPC': errno.ENOSPC, 'EPIPE': errno.EPIPE,
+         'EINTR': errno.EINTR, 'EAGAIN': errno.EAGAIN, 'EBUSY': errno.EBUSY}
+# retryable errors: the call fails once and would succeed if repeated (a fault hits one event ordinal only, so a retry
+# by the command meets the real call).  A command may give up or retry; see cliworld.judge for how each outcome is held.
+TRANSIENT = ('EINTR', 'EAGAIN', 'EBUSY')
+
+
+def is_transient(kind):
+    return kind.partition(':')[0] in TRANSIENT
+
 
 # fault kinds applicable to each event class (the single-fault space enumerated per world)
 FAULT_KINDS = {
     'scandir': ['EACCES', 'ENOENT', 'INTR'],
-    'open_r': ['EACCES', 'ENOENT', 'EIO', 'EMFILE', 'INTR'],
-    'read': ['EIO', 'crash', 'INTR'],
-    'open_w': ['EACCES', 'EROFS', 'EMFILE', 'crash', 'INTR'],
+    'open_r': ['EACCES', 'ENOENT', 'EIO', 'EMFILE', 'INTR', 'EINTR'],
+    'read': ['EIO', 'crash', 'INTR', 'EAGAIN'],
+    'open_w': ['EACCES', 'EROFS', 'EMFILE', 'crash', 'INTR', 'EBUSY'],
     'opened_w': ['crash'],
-    'write': ['ENOSPC:0', 'ENOSPC:half', 'EIO:half', 'crash_before', 'crash_after', 'INTR_before', 'INTR_after'],
+    'write': ['ENOSPC:0', 'ENOSPC:half', 'EIO:half', 'crash_before', 'crash_after', 'INTR_before', 'INTR_after', 'EAGAIN:0'],
     'close_w': ['EIO:flushed', 'EIO:lost', 'crash'],
     'stdout': ['EPIPE'],
-    'os_rename': ['EIO', 'EACCES', 'crash_before', 'crash_after', 'INTR_before', 'INTR_after'],       # os.rename / os.replace onto or away from a world path
-    'os_remove': ['EIO', 'EACCES', 'crash_before', 'crash_after', 'INTR_before', 'INTR_after'],       # os.remove / os.unlink
-    'fsync': ['EIO', 'crash'],                                           # os.fsync on a descriptor opened through os.open
+    'os_rename': ['EIO', 'EACCES', 'crash_before', 'crash_after', 'INTR_before', 'INTR_after', 'EBUSY'],       # os.rename / os.replace onto or away from a world path
+    'os_remove': ['EIO', 'EACCES', 'crash_before', 'crash_after', 'INTR_before', 'INTR_after', 'EBUSY'],       # os.remove / os.unlink
+    'fsync': ['EIO', 'crash', 'EINTR', 'EAGAIN'],                                           # os.fsync on a descriptor opened through os.open
     'os_chmod': ['EACCES', 'crash_before'],                              # os.chmod (shutil.copymode ...) on a world path
     'truncate': ['EIO', 'crash_before', 'crash_after'],                  # os.truncate / os.ftruncate
 }
@@ -280,7 +289,7 @@ class FileProxy(object):
             if kind == 'INTR_after':
                 self._real.write(data)
                 raise KeyboardInterrupt()
-            if kind.startswith('ENOSPC') or kind.startswith('EIO'):
+            if kind.startswith('ENOSPC') or kind.startswith('EIO') or kind.startswith('EAGAIN'):
                 code, _, how = kind.partition(':')
                 k = 0 if how == '0' else len(data) // 2
                 if k:
@@ -663,7 +672,7 @@ class World(object):
                 if kind == 'INTR_after':
                     real_os_write(fd, data)
                     raise KeyboardInterrupt()
-                if kind.startswith('ENOSPC') or kind.startswith('EIO'):
+                if kind.startswith('ENOSPC') or kind.startswith('EIO') or kind.startswith('EAGAIN'):
                     code, _, how = kind.partition(':')
                     k = 0 if how == '0' else len(data) // 2
                     if k:
@@ -693,7 +702,9 @@ class World(object):
             if f is not None:
                 if f['kind'] == 'crash':
                     w.crash()
-                raise OSError(errno.EIO, os.strerror(errno.EIO))
+                if is_transient(f['kind']):
+                    real_os_fsync(fd)       # the data reached the disk; only the report is an error
+                w.raise_errno(f['kind'], path)
             return real_os_fsync(fd)
 
         os.write, os.close, os.fsync = sim_os_write, sim_os_close, sim_os_fsync
